@@ -359,6 +359,15 @@ func (fc *fnCtx) applyHavoc(st *State, tg assignTarget) {
 	switch tg.kind {
 	case "everything":
 		fc.havocAll(st)
+	case "except":
+		saved := map[string]string{}
+		for _, h := range tg.heaps {
+			saved[h] = fc.H(st, h)
+		}
+		fc.havocAll(st)
+		for h, t := range saved {
+			st.heap[h] = t
+		}
 	case "heap":
 		for _, h := range tg.heaps {
 			fc.havocHeap(st, h)
@@ -388,6 +397,15 @@ func (fc *fnCtx) assignTarget(env *Env, text string) assignTarget {
 	text = strings.TrimSpace(text)
 	if text == "heap" || text == "everything" {
 		return assignTarget{kind: "everything"}
+	}
+	if strings.HasPrefix(text, "heapexcept(") && strings.HasSuffix(text, ")") {
+		// everything except the cells of the listed types (locals whose address is passed around)
+		var keep []string
+		for _, a := range splitTop(text[11:len(text)-1], ';') {
+			t := env.resolveType(parseExprOrBail(strings.TrimSpace(a)))
+			keep = append(keep, fc.cellHeap(t))
+		}
+		return assignTarget{kind: "except", heaps: keep}
 	}
 	if strings.HasPrefix(text, "all(") && strings.HasSuffix(text, ")") {
 		inner := text[4 : len(text)-1]
@@ -504,7 +522,7 @@ func (fc *fnCtx) callWrites(c *ssa.CallCommon, names map[string]bool) (all bool)
 	}
 	for _, a := range con.Assigns {
 		tg := fc.assignTarget(env, a)
-		if tg.kind == "everything" {
+		if tg.kind == "everything" || tg.kind == "except" {
 			return true
 		}
 		for _, h := range tg.heaps {
